@@ -46,13 +46,13 @@ class Variables(_Sym):
     doc = 'after set_variable(name, v) the formula consisting of the name evaluates to exactly v, for every identifier-shaped name'
     functions = ('Parser.set_variable', 'Parser.call_variable', 'grammarparser.lexer.t_VARIABLE', 'grammarparser.lexer.t_RELATIVE_CELL',
                  'grammarparser.parser.p_expression_varseq', 'grammarparser.parser.p_variable', 'ply.lex.Lexer.token')
-    bounds = 'names of 1..3 (quick) / 1..4 (thorough) characters over letters, digits and underscore that are identifier-shaped ' \
+    bounds = 'names of 1..3 (quick) / 1..5 (thorough) characters over letters, digits and underscore that are identifier-shaped ' \
              'without a cell-shaped prefix (the name itself is symbolic and lexed symbolically); values: any integer, logical, ' \
              'text of 2 arbitrary characters, blank, float, list of two integers'
     outside = ('names with a cell-shaped prefix such as ab1c', 'dotted variable sequences a.b')
 
     def cases(self, tier):
-        ls = (1, 2, 3) if tier == 'quick' else (1, 2, 3, 4)
+        ls = (1, 2, 3) if tier == 'quick' else (1, 2, 3, 4, 5)
         return [{'len': n, 'tag': t} for n in ls for t in ('int', 'bool', 'text', 'blank', 'float', 'list')]
 
     def build(self, e, p):
